@@ -16,7 +16,32 @@
 //!  (c) thorough: all pairs of (a)-faults within one structure (bounded, see `bounds`);
 //!  (d) hand-built adversaries and every instruction cut short at every operand byte;
 //!  (e) text parsers: every sequence of ≤ 3 lines over a line alphabet, every single-token
-//!      replacement in fixture-like seeds; descriptor parsers: every string up to a length bound.
+//!      replacement in fixture-like seeds; descriptor parsers: every string up to a length bound;
+//!  (f) every single byte edit of every seed; (g) short strings in every text cell / Utf8 constant;
+//!  (h) "text is bytes": k ASCII letters and one character of 1/2/3/4 UTF-8 bytes (first and last), every
+//!      k ≤ 140, in every cell of the text seeds (accepted, and quoted by an indentation error), in
+//!      the slot of every error-situation template (duplicate class/field/method/parameter/comment,
+//!      too many / too few fields, bad descriptor / index / header / indentation: the errors that quote
+//!      text), in the descriptor parsers and in every Utf8 constant of class seeds: a message or a name
+//!      that is cut at a byte offset meets a character boundary problem for some k;
+//!  (i) fault sequences of the environment: readers that serve 1..7 bytes per call, answer
+//!      `Interrupted` first, fail with an I/O error at every byte offset; writers that accept part of
+//!      what is offered and fail after every number of bytes (the class reader, tiny v2, Enigma);
+//!  (j) structure edits: every attribute duplicated (in place / at the ends of its list), deleted,
+//!      swapped with its successor: repeated attributes are legal for some kinds (the reader merges
+//!      LineNumberTables, LocalVariable(Type)Tables), "already there" for the others;
+//!  (d+) around every bound: element values nested along every periodic word of ≤ 3 steps over
+//!      {annotation, array} (a depth guard reset at one of the four recursion sites shows only on a
+//!      mix) at every place an annotation can stand, at depths 254..258 (with siblings before and
+//!      after) and 100000; Enigma classes with members between the levels; Dynamic chains 254..258,
+//!      32767..32769 nested arguments; tables merged by the reader to 65535 / 65536 entries, 65535
+//!      attributes / fields / methods / interfaces, a pool with every slot used (what the reader
+//!      accepts is written again: counts beyond a u16 must come back as errors); code that grows
+//!      when written (ldc → ldc_w) so that branches must be widened, up to the last byte of a method.
+//!  Enigma's `read_into` appends to existing mappings: every accepted Enigma input is read a second
+//!  time into the mappings it has just produced (state that is already there).
+
+#![recursion_limit = "256"]
 
 use std::alloc::{GlobalAlloc, Layout, System};
 use std::collections::{BTreeMap, BTreeSet, VecDeque};
@@ -508,7 +533,7 @@ fn split_site(s: &str) -> (String, u32) {
 fn replay_text(space: &Space, idx: u64, tier: &str) -> String {
 	let input = space.input(idx);
 	let hex = if input.len() <= 2 << 20 { vcore::hex(&input) } else { "(omitted: larger than 2 MiB, regenerated from the generator line)".to_owned() };
-	format!("parser={}\ncase={}\ngenerator={}:{}#{}\ninput_len={}\ninput (hex):\n{}", space.parser(idx).name(), space.label(idx), tier, space.spec, idx, input.len(), hex)
+	format!("parser={}\nenv={}\ncase={}\ngenerator={}:{}#{}\ninput_len={}\ninput (hex):\n{}", space.parser(idx).name(), space.env(idx).text(), space.label(idx), tier, space.spec, idx, input.len(), hex)
 }
 
 /// turns one violation into a (key, what) pair
@@ -586,13 +611,30 @@ fn make_env(dir: &Path, k: usize, tier: &'static str) -> WorkerEnv {
 }
 
 fn space_specs(thorough: bool) -> Vec<String> {
-	let mut v = vec!["seeds".to_owned(), "adversaries".to_owned(), "insncut".to_owned()];
+	let mut v = vec!["seeds".to_owned(), "adversaries".to_owned(), "boundaries".to_owned(), "insncut".to_owned()];
 	let gen = spaces::class_seed_names(thorough);
 	let corpus = spaces::corpus_seed_names(thorough);
 	for s in gen.iter().chain(corpus.iter()) {
 		v.push(format!("fields:{s}"));
 		v.push(format!("trunc:{s}"));
 		v.push(format!("utf8:{s}"));
+		v.push(format!("attrops:{s}"));
+	}
+	// long texts with a multi-byte character at every offset in every Utf8 constant; every scripted reader / writer behaviour
+	for s in spaces::pad_seed_names(thorough) {
+		v.push(format!("utf8pad:{s}"));
+	}
+	for s in spaces::env_seed_names(thorough) {
+		v.push(format!("env:{}|{s}", P::Class.name()));
+	}
+	// the padded texts again, with a fault behind the pool (an unknown opcode, a constant value / bootstrap argument index
+	// outside the pool), so that the error contexts which quote class, member and constant names are built
+	for (k, (fault, seed)) in spaces::faulted_pad_seeds(thorough).into_iter().enumerate() {
+		let spec = format!("utf8padf:{fault}:{seed}");
+		// the first three (small compiled classes) are required; a further seed takes part where it has the structure to fault
+		if k < 3 || Space::open(&spec, thorough).is_ok() {
+			v.push(spec);
+		}
 	}
 	// every byte of the seed / every short string in every Utf8 constant: all generated seeds; corpus: the quick selection
 	let quick_corpus = spaces::corpus_seed_names(false);
@@ -621,7 +663,14 @@ fn space_specs(thorough: bool) -> Vec<String> {
 				v.push(format!("linesx:{}:{mode}:5", p.name()));
 			}
 		}
+		v.push(format!("tmpl:{}", p.name()));
 		for k in 0..texts::seeds(p).len() {
+			if thorough || k == 0 {
+				v.push(format!("pad:{}:{k}", p.name()));
+			}
+			if matches!(p, P::Tiny2 | P::Tiny3 | P::Enigma) {
+				v.push(format!("env:{}|{k}", p.name()));
+			}
 			v.push(format!("tokens:{}:{k}", p.name()));
 			v.push(format!("ttrunc:{}:{k}", p.name()));
 			v.push(format!("tedit:{}:{k}", p.name()));
@@ -635,6 +684,7 @@ fn space_specs(thorough: bool) -> Vec<String> {
 	}
 	let (max_len, letters_len) = if thorough { (6, 4) } else { (5, 3) };
 	for p in [P::DescField, P::DescMethod, P::DescReturn] {
+		v.push(format!("tmpl:{}", p.name()));
 		v.push(format!("desc:{}:{max_len}", p.name()));
 		v.push(format!("descl:{}:{letters_len}", p.name()));
 	}
@@ -720,6 +770,11 @@ fn replay(ctx: &Ctx, path: &Path) -> ! {
 	let parser = field("parser=").and_then(|n| P::from_name(&n)).unwrap_or_else(|| vcore::machinery_fail("replay: no parser= line"));
 	let hex: String = body.lines().skip_while(|l| !l.starts_with("input (hex):")).skip(1).collect();
 	let thorough = ctx.tier == Tier::Thorough;
+	// replay files written before the environment alphabet existed have no env= line: the plain environment
+	let env = match field("env=") {
+		Some(t) => spaces::Env::from_text(&t).unwrap_or_else(|| vcore::machinery_fail("replay: bad env= line")),
+		None => spaces::Env::Plain,
+	};
 	let input = match vcore::unhex(&hex) {
 		Some(b) if !hex.starts_with('(') => b,
 		_ => {
@@ -733,7 +788,9 @@ fn replay(ctx: &Ctx, path: &Path) -> ! {
 	let dir = scratch_dir();
 	let _ = std::fs::create_dir_all(&dir);
 	let case_file = dir.join("replay.case");
-	let mut bytes = vec![parser.id() as u8];
+	let (env_kind, env_value) = env.encode();
+	let mut bytes = vec![parser.id() as u8, env_kind];
+	bytes.extend_from_slice(&env_value.to_be_bytes());
 	bytes.extend_from_slice(&input);
 	std::fs::write(&case_file, bytes).unwrap_or_else(|e| vcore::machinery_fail(&format!("replay case file: {e}")));
 	let spec = format!("file:{}", case_file.display());
@@ -784,7 +841,9 @@ fn main() {
 	std::fs::create_dir_all(&dir).unwrap_or_else(|e| vcore::machinery_fail(&format!("{dir:?}: {e}")));
 	let batches = make_batches(&spaces);
 	let n_batches = batches.len();
-	let threads = std::thread::available_parallelism().map(|n| n.get()).unwrap_or(16).min(16);
+	// RAYON_NUM_THREADS (the knob of the other checkers) also limits the number of concurrent faultbox children
+	let limit = std::env::var("RAYON_NUM_THREADS").ok().and_then(|v| v.parse::<usize>().ok()).filter(|n| *n > 0).unwrap_or(16);
+	let threads = std::thread::available_parallelism().map(|n| n.get()).unwrap_or(16).min(16).min(limit);
 	let mut tally = run_all(ctx, &spaces, batches, &dir, threads);
 	let _ = std::fs::remove_dir_all(&dir);
 
@@ -800,6 +859,12 @@ fn main() {
 	if only.is_some() {
 		for (k, n) in &sites {
 			println!("site {n:6} {k}");
+		}
+		if std::env::var_os("C16_TRACE").is_some() {
+			tally.samples.sort();
+			for (si, idx, verdict) in &tally.samples {
+				println!("case {} | {verdict}", spaces[*si].label(*idx));
+			}
 		}
 		for (i, s) in spaces.iter().enumerate() {
 			println!("space {} {} {}", s.spec, tally.per_space.get(&i).cloned().unwrap_or_default().json(), s.bounds().unwrap_or(Value::Null));
@@ -864,6 +929,31 @@ fn main() {
 		};
 		ctx.floor(&format!("{}: distinct error messages", p.name()), need, tally.err_classes.get(&p.id()).map(|s| s.len() as u64).unwrap_or(0));
 	}
+	// the spaces added for the gap patterns: each must have run, and have met both accepting and refusing situations
+	let bnd_idx = spaces.iter().position(|s| s.spec == "boundaries");
+	let bnd = count_of(bnd_idx);
+	ctx.floor("adversaries around the bounds of the recursion guards: executed", bnd_idx.map(|i| spaces[i].len()).unwrap_or(0).max(2500), bnd.total());
+	ctx.floor("adversaries around the bounds of the recursion guards: accepted (nesting within the bound, written again)", 500, bnd.ok + bnd.okwr);
+	ctx.floor("adversaries around the bounds of the recursion guards: refused (nesting beyond the bound)", 500, bnd.err);
+	ctx.floor("hand-built adversaries read but refused by write_class (merged tables beyond a count, code grown beyond 65535 bytes)", 60, count_of(adv_idx).okwr);
+	let fam = |prefix: &str| families.iter().find(|(k, _)| k.starts_with(prefix)).map(|(_, (_, c))| c.clone()).unwrap_or_default();
+	let (h, i_, j) = (fam("(h)"), fam("(i)"), fam("(j)"));
+	ctx.floor("(h) padded texts: cases", ctx.tier.pick(700_000, 1_000_000), h.total());
+	ctx.floor("(h) padded texts: accepted", 100_000, h.ok + h.okwr);
+	ctx.floor("(h) padded texts: refused (the text is quoted by an error)", 100_000, h.err);
+	ctx.floor("(i) scripted readers and writers: cases", 30_000, i_.total());
+	ctx.floor("(i) scripted readers and writers: accepted", 2_000, i_.ok);
+	ctx.floor("(i) scripted readers and writers: read but write_class refused (the writer's failure came back)", 2_000, i_.okwr);
+	ctx.floor("(i) scripted readers and writers: refused", 10_000, i_.err);
+	for p in [P::Class, P::Tiny2, P::Tiny3, P::Enigma] {
+		let n = tally.err_classes.get(&p.id()).map(|s| s.iter().filter(|c| c.contains(child::READER_FAILURE)).count() as u64).unwrap_or(0);
+		ctx.floor(&format!("(i) {}: the failure of the scripted reader came back as an error", p.name()), 1, n);
+	}
+	let n = tally.err_classes.get(&P::Class.id()).map(|s| s.iter().filter(|c| c.contains(child::WRITER_FAILURE)).count() as u64).unwrap_or(0);
+	ctx.floor("(i) write_class: the failure of the scripted writer came back as an error", 1, n);
+	ctx.floor("(j) attribute edits: cases", 1_000, j.total());
+	ctx.floor("(j) attribute edits: accepted (merged or replaced by the reader, written again)", 300, j.ok + j.okwr);
+	ctx.floor("(j) attribute edits: refused", 100, j.err);
 	let class_c = per_parser.get(&P::Class.id()).cloned().unwrap_or_default();
 	ctx.floor("faulted classes accepted by read_class and passed to write_class", 1000, class_c.ok + class_c.okwr);
 	ctx.floor("cases", ctx.tier.pick(300_000, 3_000_000), total.total());
@@ -886,6 +976,7 @@ fn main() {
 	}).collect();
 
 	let line_alpha_sizes: BTreeMap<String, usize> = [P::Tiny2, P::Tiny3, P::TinyDiff, P::Enigma, P::Nests].iter().map(|p| (p.name().to_owned(), texts::line_alphabet(*p).len())).collect();
+	let template_counts: BTreeMap<String, usize> = PARSERS.iter().filter(|p| **p != P::Class).map(|p| (p.name().to_owned(), texts::templates(*p).len())).collect();
 	let coverage = json!({
 		"evaluations": total.total(),
 		"distinct_nontrivial": distinct,
@@ -908,6 +999,18 @@ fn main() {
 			"(c) structures": pair_bounds.0,
 			"(c) structures_with_more_candidates_than_the_cap": pair_bounds.1,
 			"(d) adversaries": adv_len,
+			"(d) adversaries around the bounds": bnd_idx.map(|i| spaces[i].len()).unwrap_or(0),
+			"(d) nesting": "element values: every periodic word of length 1..=3 over {annotation, array} x 11 places (class, field, method, record component, visible/invisible, type annotations of class/field/method/code/record component, AnnotationDefault) x depths {254..=258, 300} x {alone, after a sibling, before a sibling}, and 100000 levels (thorough: 1000000) after a sibling; Enigma classes 254..=259 levels and 100/1000/3000 (with and without members); Dynamic chains of 254..=258 and 10..30000 constants; 1/32766..32769/65535 arguments of nested Dynamic constants",
+			"(d) counts": "LineNumberTable / LocalVariableTable / LocalVariableTypeTable merged from two attributes to 65535 and 65536 (and more) entries; 65534 / 65535 attributes at each of 5 levels; 65534 / 65535 interfaces, fields, methods; every slot of a pool of 65533..=65535 slots in use (ints, longs)",
+			"(d) writer code growth": "5 branch opcodes x {backward, forward} over 10900 / 10923 / 12000 ldc that become ldc_w when written; the replaced branch at byte 65518..=65537 of the written code",
+			"(h) padded_texts": texts::pad_strings(false).len(),
+			"(h)": format!("k letters + one character of 1/2/3/4 UTF-8 bytes (class files: modified UTF-8, a surrogate pair and a lone surrogate) and the character first, k = 0..={}: in every cell of a text seed (line as it is / indented 7 tabs too deep), in the slot of every error-situation template (duplicates, field counts, descriptors, indices, headers, indentation), in every Utf8 constant of the listed class seeds", texts::PAD_MAX),
+			"(h) class_seeds": spaces::pad_seed_names(thorough),
+			"(h) class_seeds_with_a_fault_behind_the_pool": spaces.iter().filter(|s| s.spec.starts_with("utf8padf:")).map(|s| s.spec.clone()).collect::<Vec<_>>(),
+			"(h) templates": template_counts,
+			"(i)": "class seeds and the text seeds of tiny v2 (2 and 3 namespaces) and Enigma through: read() serving at most 1/2/3/7 bytes; every request refused once with Interrupted (then 1 / 4 / all bytes); an I/O error at every byte offset; (class) write() accepting at most 1 / 3 bytes per call and failing after every number of bytes up to input length + 512; every prefix of the seed through the 1-byte and the interrupted reader",
+			"(i) class_seeds": spaces::env_seed_names(thorough),
+			"(j)": "every attribute of every class seed (all levels): duplicated in place, at the end and at the start of its list, deleted, swapped with its successor (counts and enclosing attribute lengths adjusted)",
 			"(d) cut_instructions": cut_idx.map(|i| spaces[i].len()).unwrap_or(0),
 			"(e) line_sequences": "every sequence of 0..=3 lines over the parser's line alphabet, raw and (tiny formats) after a valid header",
 			"(e) line_alphabet_sizes": line_alpha_sizes,
